@@ -439,6 +439,75 @@ def judge(res, ref):
     return bad
 
 
+K_NODE_CREATE = "crash:node-create-before-token-finalised-residue"
+K_NO_DETAILS = "crash:cleanup-without-details-uses-global-config"
+K_NODE_DROP = "crash:node-drop-after-state-removed-residue"
+K_TAG = "crash:tag-created-not-finalised-node-never-clean"
+K_SHM = "crash:shm-created-not-truncated-survivor-hangs"
+K_STATIC = "crash:service-create-before-unlock-static-config-stays"
+K_SVC_DROP = "crash:service-drop-tag-first-orphans-configs"
+K_LISTENER = "crash:listener-create-residue-event-mgmt"
+ROOT_CAUSE_KEYS = [K_NODE_CREATE, K_NO_DETAILS, K_NODE_DROP, K_TAG, K_SHM, K_STATIC, K_SVC_DROP, K_LISTENER]
+
+
+def _residue(sym, prefix="residue-after-cleanup:"):
+    return set(sym[len(prefix):].split(",")) if sym.startswith(prefix) else None
+
+
+def classify(process, wk, at, syms, uname):
+    """root-cause key (one of the 8 adjudicated known findings of known_findings.json) of ONE failing case, or None.
+    Deliberately narrow: the API window the process died in, the call it died at and the exact symptom set must all
+    fit; everything else stays an unkeyed VIOLATION.
+      process  "victim" | "cleaner"       wk  window_kind() of the window the process died in
+      at       canonical trace line of the call at the crash point ("<call> <path> <args> <result>")
+      syms     the normalised symptoms of the case (judge()), consequences already suppressed"""
+    f = at.split(" ")
+    call, path = f[0], f[1]
+    syms = list(syms)
+    in_node_files = bool(re.match(r"^R/nodes(/|$)", path))
+    cleaner = process == "cleaner"
+    res_sets = [_residue(x) for x in syms]
+    # (1) node (victim's, or the helper node send_dead_node_signal creates inside the cleaner) dies while it is created, before
+    #     the monitoring token is finalised: never listed; node directory (+ details, + token files in init permissions) stay
+    if len(syms) == 1 and res_sets[0] and "node-dir" in res_sets[0] and \
+            res_sets[0] <= {"node-dir", "node-details", "monitor-context", "monitor-state", "monitor-owner-lock"} and \
+            (wk == "node-create" or (cleaner and in_node_files)):
+        return K_NODE_CREATE
+    # (3) node drop / cleaner's token drop dies after the state file is gone: _owner_lock / _context stay, never listed
+    if len(syms) == 1 and res_sets[0] and res_sets[0] <= {"monitor-context", "monitor-owner-lock"} and \
+            (wk == "node-drop" or cleaner) and ".node_monitor" in path:
+        return K_NODE_DROP
+    # (4) service tag / port tag created but not finalised (died at the fchmod/write between open(O_CREAT) and fchmod 0400)
+    if path.endswith((".service_tag", ".port_tag")) and call in ("fchmod", "write", "open") and \
+            (wk.startswith(("svc-create-", "svc-open-", "port-create-")) or cleaner) and \
+            any(x in ("node-never-clean:Dead:InternalError", "node-never-clean:Dead:InternalError+ResourcesAlreadyCleanedUp") for x in syms) and \
+            all(x.startswith("node-never-clean:Dead:InternalError") or x == "cleanup-without-details-uses-global-config" for x in syms):
+        return K_TAG
+    # (2) dead node without details file (node drop past the details removal, or a cleaner that died past it)
+    if syms == ["cleanup-without-details-uses-global-config"] and (wk == "node-drop" or cleaner) and in_node_files:
+        return K_NO_DETAILS
+    # (5) root only: shm object created, not yet truncated: the survivor's cleanup loops for ever
+    if syms == ["survivor-hang:after"] and uname == "self" and os.geteuid() == 0 and path.startswith("/dev/shm/") and \
+            (call == "ftruncate" or (call == "shm_open" and "O_CREAT" in at)) and \
+            (wk.startswith(("svc-create-", "port-create-")) or "@steady_" in wk or "@full_" in wk):
+        return K_SHM
+    # (6) service creator dies with the static config created but not unlocked
+    if wk.startswith("svc-create-") and path.endswith(".service") and syms and \
+            all(x == "residue-after-cleanup:static-config" or re.match(r"^probe-differs:svc n1 \w+:err:AlreadyExists$", x) for x in syms):
+        return K_STATIC
+    # (7) last user's service drop: tag removed first, configs orphaned
+    if re.match(r"^drop_s@(full_)?create_", wk) and syms and \
+            all((_residue(x) is not None and _residue(x) <= {"dynamic-config", "static-config", "blackboard_data", "blackboard_mgmt"})
+                or x == "probe-differs:exists:true" for x in syms) and any(_residue(x) for x in syms):
+        return K_SVC_DROP
+    # (8) listener dies while it is created: event_mgmt shm / socket are not found through the port tag
+    #     (same mechanism in the listener's drop: registry entry already released, event files not yet removed, tag still there)
+    if len(syms) == 1 and res_sets[0] and res_sets[0] <= {"event_mgmt", "event-connection"} and \
+            (wk.startswith("port-create-lis@") or (wk.startswith("drop_") and path.endswith((".event", ".event_mgmt")))):
+        return K_LISTENER
+    return None
+
+
 def window_kind(win, scenario):
     """scenario-independent name of an API window where possible"""
     w = re.sub(r"^\d+:", "", win)
@@ -650,14 +719,47 @@ def enumerate_as(ctx, tdir, scs, user, th, model_steps, classes, stats):
     # reported in the coverage
     import hashlib
 
+    # representatives: the state right after the first state change of every resource role in every API window.  Those whose
+    # (window kind, role) has not been seen in an earlier scenario run first (every kind of window of every operation is
+    # touched before anything is repeated), then the per-scenario ones, then the other state-changing points, then the rest
+    reps = {}
+    seen_global = set()
+    for nme_, inf_ in info.items():
+        seen_local = set()
+        w_ = "start"
+        trc = inf_["ctrace"]
+        for i_, line_ in enumerate(trc, 1):
+            if line_.startswith("access R/@M/"):
+                w_ = line_.split(" ")[1][len("R/@M/"):]
+            elif MUTATING.search(line_) and i_ + 1 <= len(trc):
+                rl = role_of(line_)
+                if (w_, rl) in seen_local:
+                    continue
+                seen_local.add((w_, rl))
+                g = (window_kind(w_, nme_).split("@")[0], rl)
+                reps[(nme_, i_ + 1)] = 0 if g not in seen_global else 1
+                seen_global.add(g)
+
     def prio(j):
         nme, k, ka, ck, cka = j
         tr = info[nme]["ctrace"] if ck is None else info[nme]["cctrace"]
         idx = k if ck is None else ck
-        mut = 0 if (MUTATING.search(tr[idx - 1]) or (idx >= 2 and MUTATING.search(tr[idx - 2]))) else 1
+        mut = 2 if (MUTATING.search(tr[idx - 1]) or (idx >= 2 and MUTATING.search(tr[idx - 2]))) else 3
+        if ck is None and not ka and (nme, k) in reps:
+            mut = reps[(nme, k)]
         return (mut, hashlib.sha1(("%s|%s|%s" % (ctx.seed, uname, j)).encode()).hexdigest())
+    have = {(j[0], j[1]) for j in jobs if j[3] is None and not j[2]}
+    for nme_, k_ in sorted(reps):
+        if (nme_, k_) not in have:
+            jobs.append((nme_, k_, False, None, False))
     jobs.sort(key=prio)
-    budget = float(os.environ.get("C04_BUDGET_S", "1000" if th else "210"))
+    if os.environ.get("C04_BUDGET_S"):
+        budget = float(os.environ["C04_BUDGET_S"])
+    elif th:
+        budget = 1000.0 / max(1, stats["nusers"])
+    else:
+        # the whole quick check has 5 minutes: what proof stage, build and reference runs left, minus the reporting reserve
+        budget = max(45.0, 265.0 - (t_enum - ctx.t0))
     deadline = t_enum + budget
     skipped = 0
     with cf.ThreadPoolExecutor(max_workers=vlib.NPROC) as ex:
@@ -709,20 +811,32 @@ def enumerate_as(ctx, tdir, scs, user, th, model_steps, classes, stats):
                 per["failing"] += 1
                 idx = k if ck is None else ck
                 wk = window_kind(win, nme)
-                for sym, detail in bad:
-                    key = "%s:%s" % (wk, sym)
-                    c = classes.setdefault(key, {"count": 0, "first": None, "points": [], "users": set()})
+                proc = "victim" if ck is None else "cleaner"
+                rk = classify(proc, wk, at, [b[0] for b in bad], uname)
+                if len(stats["samples"]) < 6:
+                    stats["samples"].append({"scenario": nme, "process": proc, "crash_index": idx, "call_at_crash_point": at, "window": wk,
+                                             "symptoms": [b[0] for b in bad], "root_cause": rk})
+                groups = [(rk, bad[0][0], bad[0][1])] if rk else [(None, sym, detail) for sym, detail in bad]
+                for gk, sym, detail in groups:
+                    key = gk or "%s:%s" % (wk, sym)
+                    c = classes.setdefault(key, {"count": 0, "first": None, "points": [], "users": set(), "root_cause": gk})
                     c["count"] += 1
                     c["users"].add(uname)
                     if len(c["points"]) < 40:
-                        c["points"].append("%s k=%d%s %s [%s]" % (nme, idx, "+" if (ka or cka) else "", role_of(at), uname))
+                        c["points"].append("%s k=%d%s %s %s [%s]" % (nme, idx, "+" if (ka or cka) else "", wk, role_of(at), uname))
                     if c["first"] is None:
                         c["first"] = {"args": (nme, k, ka, ck, cka, user),
-                                      "scenario": nme, "crash_index": idx, "kill_after": ka or cka, "process": "victim" if ck is None else "cleaner",
+                                      "scenario": nme, "crash_index": idx, "kill_after": ka or cka, "process": proc,
                                       "run_as_user": uname, "call_at_crash_point": at, "api_window": win, "symptom": sym, "detail": detail,
                                       "all_symptoms_of_this_case": [b[0] for b in bad],
                                       "trace_prefix": (tr[max(0, idx - 25):idx] if tr is not mine else mine[-25:]), "survivor_after": res["phases"].get("after"),
                                       "survivor_probe": res["phases"].get("probe"), "how_to_rerun": replay_cmd(res)}
+            elif len(stats["samples"]) < 3 or (len(stats["samples"]) < 8 and not any(x["symptoms"] == [] for x in stats["samples"])):
+                stats["samples"].append({"scenario": nme, "process": "victim" if ck is None else "cleaner", "crash_index": k if ck is None else ck,
+                                         "call_at_crash_point": at, "window": window_kind(win, nme), "symptoms": [], "root_cause": None,
+                                         "cleanup": [l for l in res["phases"].get("after", []) if l.startswith("O cleanup")]})
+            if MUTATING.search(at):
+                stats["nontrivial"].add((nme, role_of(at)))
     stats["nfail"] += nfail
     stats["selected"] += len(jobs)
     stats["skipped"] += skipped
@@ -742,6 +856,7 @@ def run(ctx):
     signal.signal(signal.SIGTERM, _on_term)
     signal.signal(signal.SIGINT, _on_term)
     sweep_stale()
+    ctx.level = "fault_enumeration"
     proof_ok = vlib.proof_stage(ctx) if os.path.exists(os.path.join(VERIF, "coq", "props", "C04.v")) else None
     gatectl.build()
     ok, out, tdir = vlib.cargo_build("g2", bins=["victim", "survivor", "cleaner"], extra="-p c04")
@@ -778,7 +893,7 @@ def run(ctx):
     users = default_users(th)
     model_steps = model_step_lists(ctx)
     classes = {}
-    stats = {"ncases": 0, "nfail": 0, "prefix_mismatch": 0, "roles": set(), "per_scn": {}, "tie_bad": [], "tie_checked": 0, "tie_user": users[0], "seen_roles": set(), "seen_croles": set(), "selected": 0, "skipped": 0}
+    stats = {"ncases": 0, "nfail": 0, "prefix_mismatch": 0, "roles": set(), "per_scn": {}, "tie_bad": [], "tie_checked": 0, "tie_user": users[0], "seen_roles": set(), "seen_croles": set(), "selected": 0, "skipped": 0, "samples": [], "nontrivial": set(), "nusers": len(users)}
     for u in users:
         stats["seen_roles"], stats["seen_croles"] = set(), set()
         enumerate_as(ctx, tdir, scs, u, th, model_steps, classes, stats)
@@ -789,8 +904,10 @@ def run(ctx):
         sym = c["first"]["symptom"]
         if not sym.startswith(("survivor-hang", "victim-hang", "cleaner-hang", "survivor-died", "node-never-clean")):
             continue
+        if c.get("root_cause") and c["root_cause"] != K_SHM:
+            continue                                  # a stuck cleanup loop with a definite error result is not timing dependent
         nconf = sum(1 for x in classes.values() if "confirmed" in x)
-        if nconf >= int(os.environ.get("C04_MAX_CONFIRM", "10")):
+        if nconf >= int(os.environ.get("C04_MAX_CONFIRM", "10" if th else "3")):
             c["confirmed"] = False
             ctx.notes.append("class %s (%d cases): timing-sensitive symptom not re-run (confirmation cap reached), not reported" % (key, c["count"]))
             continue
@@ -807,6 +924,7 @@ def run(ctx):
         if not c["confirmed"]:
             ctx.notes.append("class %s (%d cases) was not reproduced when its first case was re-run alone with 3x timeouts (symptoms then: %s): "
                              "attributed to machine load, not reported" % (key, c["count"], again))
+    known_counts = {}
     for key in sorted(classes):
         c = classes[key]
         if c.get("confirmed") is False:
@@ -816,9 +934,14 @@ def run(ctx):
         fst["crash_points_in_this_class"] = c["points"]
         fst["cases_in_this_class"] = c["count"]
         fst["seen_as_user"] = sorted(c["users"])
-        vkey = key if c["users"] != {"self"} or len(users) == 1 else key + "@root-only"
-        ctx.violation("%s -- first: scenario %s, %s killed at gated call %d (%s), user %s; %d crash cases in this class" % (
-            vkey, fst["scenario"], fst["process"], fst["crash_index"], fst["call_at_crash_point"], fst["run_as_user"], c["count"]), fst, key=vkey)
+        if c.get("root_cause"):
+            known_counts[key] = c["count"]
+            ctx.violation("%s -- first: scenario %s, %s killed at gated call %d (%s), user %s; %d crash cases of this root cause" % (
+                key, fst["scenario"], fst["process"], fst["crash_index"], fst["call_at_crash_point"], fst["run_as_user"], c["count"]), fst, key=key)
+        else:
+            ctx.violation("%s -- first: scenario %s, %s killed at gated call %d (%s), user %s; %d crash cases in this class; matches none of the adjudicated root causes" % (
+                key, fst["scenario"], fst["process"], fst["crash_index"], fst["call_at_crash_point"], fst["run_as_user"], c["count"]), fst)
+    ctx.cov["known_root_cause_case_counts"] = {k: known_counts.get(k, 0) for k in ROOT_CAUSE_KEYS}
     for t in stats["tie_bad"][:8]:
         ctx.violation("correspondence model<->implementation broken: resource steps of scenario %s differ from coq/model/Lifecycle.v: %s" % (t[0], t[1]),
                       {"obligation": "trace equality per scenario", "scenario": t[0], "detail": t[1:]}, no_input=True)
@@ -833,11 +956,11 @@ def run(ctx):
         "distinct_call_roles_at_crash_point": len(stats["roles"]),
         "kill_prefix_trace_mismatches": stats["prefix_mismatch"],
         "model_tie_scenarios_checked": stats["tie_checked"],
-        "evaluations": stats["ncases"], "exhaustive": bool(th),
+        "evaluations": stats["ncases"], "distinct_nontrivial": max(len(stats["nontrivial"]), 0), "exhaustive": bool(th) and stats["skipped"] == 0,
         "rule": "thorough: every gated call index of every scenario, kill before and after the call, plus every gated call of the cleaner in the "
                 "full_* scenarios, as user nobody and as root; quick (user nobody when the check runs as root): first occurrence of every (call kind, role) "
                 "pair per scenario, every %s-th index, the last index; cleaner every %s-th" % (os.environ.get("C04_STRIDE", "12"), os.environ.get("C04_CSTRIDE", "25")),
-        "samples": [],
+        "samples": stats["samples"],
     })
     ctx.assumptions = [
         "crash points are the gated libc calls of harness/libgate (file-system / shm / mmap / lock calls on the private root and prefix); crashes between two "
